@@ -1,4 +1,5 @@
 """C01 - L-BFGS/BFGS and all line-search solvers: `converged` is truthful (DESIGN 3, C01)."""
+import re
 import sympy as sp
 
 from ..cfg import must_dataflow
@@ -217,8 +218,66 @@ def rule_descent(F, R):
     R.floor("R-C01-5", n, 4, "line-search calls")
 
 
+def rule_lbfgs_retention(F, R, f):
+    """the number of curvature pairs kept is the `solver::lbfgs::history` parameter, whatever containers hold them: a container that
+    receives p vectors per accepted step must be trimmed (by p) only beyond p * history"""
+    hv = [v for v in f.nodes() if v["k"] == "var" and v.get("c") and parameter_name(v["c"][0]) == "solver::lbfgs::history"]
+    if len(hv) != 1:
+        raise AnalysisBroken("lbfgs: no local is read from the parameter solver::lbfgs::history")
+    HIST = kalg.sym("history")
+    pushes = {}
+    for c in f.calls(lambda x: x.get("ck") == "mem" and callee(x).split("::")[-1] in ("emplace_back", "push_back") and callee(x).startswith("std::deque")):
+        pushes.setdefault(pp(obj(c)), []).append(c)
+    if not pushes:
+        raise AnalysisBroken("lbfgs: no history container (std::deque) receives curvature pairs")
+    pops = {}
+    for c in f.calls(lambda x: x.get("ck") == "mem" and callee(x).split("::")[-1] == "pop_front"):
+        pops.setdefault(pp(obj(c)), []).append(c)
+    total = sum(len(v) for v in pushes.values())
+    R.check(total == 2, "R-C01-6", "history pair", f.loc(), "each accepted step stores one (s, y) pair", "each accepted step stores %d vectors, not one (s, y) pair" % total)
+    for name, pu in sorted(pushes.items()):
+        p_ = len(pu)
+        po = pops.get(name, [])
+        inst = "history retention `%s`" % name
+        if not po:
+            R.bad("R-C01-6", inst, f.loc(pu[0]), "`%s` grows without bound: it is never trimmed" % name)
+            continue
+        guards = [a for a in f.ancestors(po[0]) if a["k"] == "if"]
+        bound = None
+        cnt = None
+        if guards:
+            cnd = skip(guards[0]["c"][guards[0]["r"].index("cond")])
+            if cnd["k"] == "bin" and cnd["op"] in (">", ">=", "<", "<="):
+                sized = [nm for nm in pushes if "%s.size()" % nm in pp(cnd)]
+                if len(sized) == 1:
+                    Z = kalg.sym("zsize")
+                    try:
+                        cv = kalg.Conv(f, subst={hv[0]["d"]: HIST}, atoms={"%s.size()" % sized[0]: Z}, inline=True)
+                        cv.rational_int_div = True
+                        L_, R_ = cv.conv(cnd["c"][0]), cv.conv(cnd["c"][1])
+                        d_ = sp.expand(L_ - R_) if cnd["op"] in (">", ">=") else sp.expand(R_ - L_)
+                        co = d_.coeff(Z, 1)
+                        if d_.is_polynomial(Z) and sp.degree(d_, Z) == 1 and co.is_positive:
+                            bound = sp.simplify(-d_.coeff(Z, 0) / co) + (0 if cnd["op"] in (">", "<") else -1)
+                            cnt = len(pushes[sized[0]])
+                    except (kalg.OutOfFragment, Exception):
+                        bound = None
+        if bound is None:
+            R.incomplete("R-C01-6", inst, f.loc(po[0]), "cannot read the trim condition guarding pop_front")
+            continue
+        okb = sp.simplify(bound - cnt * HIST) == 0
+        R.check(okb and len(po) == p_, "R-C01-6", inst, f.loc(po[0]), "trimmed by %d beyond %d * history: exactly `history` pairs are kept" % (p_, cnt),
+                "the container receives %d vector(s) per step but is trimmed (by %d) beyond %s: it keeps %s pairs instead of `history` (solver::lbfgs::history)" % (
+                    cnt, len(po), bound, sp.simplify(bound / cnt)))
+
+
 def rule_lbfgs(F, R):
     f = F.one("nano::solver_lbfgs_t::do_minimize", "src/solver/lbfgs.cpp")
+    rule_lbfgs_retention(F, R, f)
+    names = {pp(obj(c)) for c in f.calls(lambda x: x.get("ck") == "mem" and callee(x).startswith("std::deque"))}
+    if not {"ss", "ys"} <= names:
+        R.incomplete("R-C01-6", "lbfgs two-loop recursion", f.loc(), "the curvature pairs are no longer kept in the two deques `ss` and `ys`: the index-pairing rule cannot follow this representation")
+        return
     loops = [x for x in f.nodes() if x["k"] == "for"]
     hs = [v for v in f.nodes() if v["k"] == "var" and v["n"] == "hsize"]
     if len(loops) != 2 or not hs:
